@@ -70,6 +70,75 @@ def stkZipObs : List Nat → List String → Option (List C01.WObs)
     pure (o :: r)
   | _, _ => none
 
+/-! ### the io.Reader / io.Writer contract ops (`rsrc`, `wsnk`, `tail`) -/
+
+/-- `lim<b>` | `stats` | `cn` | `ctx` | `rwc` -/
+def stkLayer (t : String) : Option RW :=
+  if t.startsWith "lim" then (t.drop 3).toString.toNat?.map (RW.limit false ·)
+  else if t = "stats" then some .stats
+  else if t = "cn" ∨ t = "ctx" ∨ t = "rwc" then some .pass
+  else none
+
+/-- the stack token lists the layers innermost first; the model wants the outermost first -/
+def stkLayers (s : String) : Option (List RW) := ((s.splitOn "+").mapM stkLayer).map List.reverse
+
+def stkSegs (s : String) : Option (List Seg) :=
+  if s = "" then some [] else
+  (s.splitOn ",").mapM fun e =>
+    match e.splitOn ":" with
+    | [n, f] =>
+      match n.toNat?, (if f = "0" then some SErr.none else if f = "E" then some SErr.eof else if f = "X" then some SErr.other else none) with
+      | some n, some f => some { data := List.replicate n 0, err := f }
+      | _, _ => none
+    | _ => none
+
+def stkSink (s : String) : Option (List SinkResp) :=
+  if s = "" then some [] else
+  (s.splitOn ",").mapM fun e =>
+    match e.splitOn ":" with
+    | [n, f] => n.toNat?.map fun n => { take := n, err := f == "E", lax := f == "L" }
+    | _ => none
+
+def stkPErr : PErr → String
+  | .none => "0"
+  | .eof => "eof"
+  | .src => "src"
+  | .wait => "wait"
+
+def stkPErrOf (s : String) : Option PErr :=
+  if s = "eof" then some .eof else if s = "wait" then some .wait else if s = "src" ∨ s = "other" then some .src else none
+
+/-- consecutive pieces of the given sizes of `0, 1, 2, …` (distinct values: a hole in what the sink took shows) -/
+def stkPieces : Nat → List Nat → List C01Bytes
+  | _, [] => []
+  | from_, n :: ns => ((List.range n).map (· + from_)) :: stkPieces (from_ + n) ns
+
+/-- the sink's counts of one call: `a/b/c!` -/
+def stkCounts (s : String) : Option (List Nat × Bool) :=
+  if s = "" then some ([], false) else
+  let fs := s.splitOn "/"
+  (fs.mapM fun (f : String) => (if f.endsWith "!" then (f.dropEnd 1).toString else f).toNat?).map fun l =>
+    (l, fs.any fun (f : String) => f.endsWith "!")
+
+def stkWSObs (len : Nat) (s : String) : Option C01.WSObs :=
+  match s.splitOn ":" with
+  | [n, e, sizes, counts, toks] =>
+    match n.toNat?, stkNatList "/" sizes, stkCounts counts with
+    | some n, some sizes, some (took, se) =>
+      let reqs := if toks = "-" then some none else (stkNatList "/" toks).map some
+      reqs.map fun r => { len := len, n := n, ok := e == "0", offered := sizes, took := took, sinkErr := se, reqs := r }
+    | _, _, _ => none
+  | _ => none
+
+/-- the calls that were made (the caller stops at the first error) against the lengths that were to be written -/
+def stkZipWS : List Nat → List String → Option (List C01.WSObs)
+  | _, [] => some []
+  | l :: ls, c :: cs => do
+    let o ← stkWSObs l c
+    let r ← stkZipWS ls cs
+    pure (o :: r)
+  | [], _ :: _ => none
+
 def stackStep (st : Unit) (tok : List String) (impl : String) : Unit × Verdict :=
   match tok with
   | ["reset"] => (st, verdictOf "-" impl)
@@ -272,6 +341,73 @@ def stackStep (st : Unit) (tok : List String) (impl : String) : Unit × Verdict 
           stkRes impl "b2u" == some "1" && stkRes impl "u2b" == some "1"
         (st, verdictOf s!"calls={callsStr};rd=0;wd=0;b2u=1;u2b=1" impl (some prop))
     | none => (st, .bad "dl")
+  | "rsrc" :: rest =>
+    match (stkKV rest "st").bind stkLayers, stkNat rest "plen", (stkKV rest "segs").bind stkSegs, stkNat rest "r" with
+    | some ws, some plen, some src, some r =>
+      if plen = 0 ∨ !burstsPos ws then (st, .skip "buffer / burst 0") else
+      -- limit.Reader / StatsConn / pass-through wrappers: Limit.readW; C01.reader_any_source, stats_count_all
+      let rs := drainW ws plen (srcFuel src) src
+      let endS := match rs.getLast? with
+        | some x => if x.err == PErr.none then "max" else stkPErr x.err
+        | none => "max"
+      let toks := r == 0 && nLim ws != 0
+      -- relational: reader.go as it is charges nothing for the bytes of the failing read (known finding); a limiter that
+      -- charges them as well — the repair — is what the property asks for and is accepted as the model's answer too
+      let lastFull := ((rs.getLast?.map (·.got.length)).getD 0) * nLim ws
+      let implLast := ((stkRes impl "req").bind (stkNatList "/")).bind List.getLast?
+      let sums := rs.map (·.reqs.sum)
+      let sums := if implLast == some lastFull then sums.dropLast ++ [lastFull] else sums
+      let m := s!"rd={stkJoinNat "/" (rs.map (·.got.length))};req={if toks then stkJoinNat "/" sums else "-"};end={endS};cat=1;cnt={if ws.contains .stats then toString (statsCount rs) else "-"}"
+      let prop := match (stkRes impl "rd").bind (stkNatList "/"), stkRes impl "req", stkRes impl "end", stkRes impl "cnt" with
+        | some ns, some rq, some e, some cnt =>
+          let reqs : Option (Option (List Nat)) := if rq = "-" then some none else (stkNatList "/" rq).map some
+          let cnt' : Option (Option Nat) := if cnt = "-" then some none else cnt.toNat?.map some
+          match reqs, cnt' with
+          | some reqs, some cnt' =>
+            -- transparency (proved for the model) and: every byte that went through was charged (C01.reader_charged_partial;
+            -- REFUTED for bytes that come with an error, C01.reader_charged_witness — known finding)
+            C01.rsrcHoldsOn (effK ws plen) src ns reqs (stkPErrOf e) (stkRes impl "cat" == some "1") cnt' &&
+              C01.rsrcChargedOn ns reqs
+          | _, _ => false
+        | _, _, _, _ => false
+      (st, verdictOf m impl (some prop))
+    | _, _, _, _ => (st, .bad "rsrc")
+  | "wsnk" :: rest =>
+    match (stkKV rest "st").bind stkLayers, (stkKV rest "w").bind (stkNatList ","), (stkKV rest "sink").bind stkSink, stkNat rest "r" with
+    | some ws, some lens, some ss, some r =>
+      if !limPos ws then (st, .skip "burst 0") else
+      -- limit.Writer / StatsConn / pass-through wrappers over a scripted sink: Limit.writeW; C01.writer_any_sink
+      let ps := stkPieces 0 lens
+      let outs := writeManyW ws ss ps
+      let toks := r == 0 && (limOf ws).isSome
+      let call (o : WRes) : String :=
+        let n := o.took.length
+        let counts := (List.range n).zip o.took |>.map fun (i, k) => if i + 1 == n && o.err == .sink then s!"{k}!" else toString k
+        s!"{o.n}:{stkWErr o.err}:{stkJoinNat "/" (o.offered.map List.length)}:{"/".intercalate counts}:{if toks then stkJoinNat "/" o.reqs else "-"}"
+      let total := (outs.map (·.n)).sum
+      let cat := (outs.map WRes.accepted).flatten == ps.flatten.take total
+      let m := s!"c={"|".intercalate (outs.map call)};cat={stkBit cat};cnt={if ws.contains .stats then toString total else "-"}"
+      -- a sink that breaks the io.Writer contract is outside what C01 speaks about: compared with the model only
+      let prop : Option Bool := if ss.any (·.lax) then none else
+        some (match (stkRes impl "c").bind (fun c => stkZipWS lens (c.splitOn "|")) with
+          | some obs => C01.wsnkHoldsOn obs (stkRes impl "cat" == some "1") &&
+              (match stkRes impl "cnt" with
+               | some "-" => true
+               | some c => c.toNat? == some (obs.map (·.n)).sum
+               | none => false)
+          | none => false)
+      (st, verdictOf m impl prop)
+    | _, _, _, _ => (st, .bad "wsnk")
+  | "tail" :: rest =>
+    match stkNat rest "n", stkKV rest "fin" with
+    | some n, some fin =>
+      -- the half-tunnel's stack over ANY source of the wire bytes: C01.reader_any_source under tunnel_*_complete
+      let prop := stkRes impl "pre" == some "1" && stkRes impl "eof" == some "1" &&
+        (match stkResNat impl "got" with
+         | some g => if fin = "E" ∨ fin = "e" then g == n else decide (g ≤ n)
+         | none => false)
+      (st, verdictOf s!"got={n};eof=1;pre=1" impl (some prop))
+    | _, _ => (st, .bad "tail")
   | "qclose" :: rest =>
     match stkNat rest "n" with
     | some n =>
